@@ -21,6 +21,7 @@ const (
 	KFunc   = "func"
 	KStruct = "struct"
 	KIface  = "iface"
+	KTilde  = "tilde" // ~Elem, a term of a constraint
 )
 
 // T is a type expression as written in the source package.
@@ -89,6 +90,8 @@ func (t *T) Render(q Qual) string {
 		return qq + "." + t.Name + renderArgs(t.Args, q)
 	case KPtr:
 		return "*" + t.Elem.Render(q)
+	case KTilde:
+		return "~" + t.Elem.Render(q)
 	case KSlice:
 		return "[]" + t.Elem.Render(q)
 	case KArray:
@@ -230,6 +233,8 @@ func (t *T) Shape() string {
 		return "T"
 	case KPtr:
 		return "*" + t.Elem.Shape()
+	case KTilde:
+		return "~" + t.Elem.Shape()
 	case KSlice:
 		return "[]" + t.Elem.Shape()
 	case KArray:
